@@ -19,19 +19,29 @@ META = {
                   'connection of the same dispatcher leaves every other reply as it is, for a dispatcher satisfying DispNeutral); a model of '
                   'Dispatcher.handle_request and the handle_* methods over an abstract node (Wire/Dispatch) for which DispNeutral, the FitsOk half of DispFits '
                   'and finiteness of the data handed on are proved (dispatcher_answers_independent, dispatcher_reply_fits, dispatcher_emitted_strict); '
-                  'peer_gone_prefix / peer_gone_sound (a socket whose sendall fails from call n on, any n: the peer has exactly the first n frames of the run '
-                  'without failure, the line being processed is finished, no later line reaches the dispatcher).  The models are tied to '
+                  'peer_gone_prefix / peer_gone_sound / peer_gone_partial (a socket whose sendall call n raises, any n, after any k bytes of its frame went out: '
+                  'the peer has exactly the first n frames of the run without failure followed by an unterminated rest without newline, the line being processed is '
+                  'finished, no later line reaches the dispatcher, sendall is never called again whatever the socket would do); the concurrent senders model has the '
+                  'same failure (steps fail / skip) and lines_whole, senders_keep_order, replies_in_order_among_events hold for it; the whole-line and peer-gone theorems '
+                  'assume of the dispatcher only DispNoEol (no newline in action and specifier of what it sends, for requests cut from lines), reply_action_fits only DispAnswers; '
+                  'both are proved for the dispatcher model over any node (dispatcher_no_newline, dispatch_answers), giving dispatcher_lines_whole and '
+                  'dispatcher_reply_action_fits without any hypothesis on the dispatcher; a model of the text of error reports (SECoPError.format on '
+                  'BaseException.__str__, Wire/ErrText) with error_text_usual / error_text_any_args / error_text_unregistered.  The models are tied to '
                   'frappy/protocol/interface/{__init__,handler,tcp}.py and frappy/protocol/dispatcher.py by a correspondence run on the real TCPRequestHandler over a '
-                  'scripted socket (stub dispatcher doing anything + the real Dispatcher over a small real node, also with sockets that fail; the dispatcher model '
+                  'scripted socket (stub dispatcher doing anything -- including SECoP errors of 16 classes with 23 shapes of arguments and 0-3 raising methods -- + the '
+                  'real Dispatcher over a small real node whose driver functions may fail with such errors, also with sockets whose sendall raises after a part of the frame and then '
+                  'stay dead or take data again; the text of every error report against the ErrText model; the dispatcher model '
                   'against the real Dispatcher per call, its request-only functions taken from fresh nodes; sessions of several connections one after the other on one '
                   'node; two connections and an updater thread on one real dispatcher under a deterministic scheduler with partial writes), and the Lean monitors judge the bytes '
-                  'actually sent: whole lines, one fitting reply per request line, no events of modules the connection did not subscribe to, and -- on pairs of runs, '
+                  'actually sent -- and, when a send failed, the bytes the peer has received cut at their newlines (judgeReceived) --: whole lines, one fitting reply per request '
+                  'line, no events of modules the connection did not subscribe to, and -- on pairs of runs, '
                   'the second without some neutral lines -- unchanged answers to all other lines.',
     'level_note': 'Trusted: Lean kernel + axioms propext/Classical.choice/Quot.sound; Python json and the UTF-8 codec enter the '
                   'model as parameters with the laws of Spec.C07.LibLaws; strictness of emitted JSON (judged on runs with the real Dispatcher; '
                   'what a stub dispatcher hands over is harness input) and validity of emitted UTF-8 are tested on the implementation side only; '
-                  'ThreadingTCPServer and the socket are not modelled (sendall = a sequence of partial writes that succeed, or a call that fails as a whole; '
-                  'send_lock = a lock acquired only when free).  The answers compared by the independence monitor are canonicalised by the harness: time stamps '
+                  'ThreadingTCPServer and the socket are not modelled (sendall = a sequence of partial writes, after any of which it may raise; '
+                  'send_lock = a lock acquired only when free); str() and repr() of the argument objects of an error are parameters of the error text model (the '
+                  'functions of Python itself in the correspondence run; objects whose __str__ / __repr__ raise are outside).  The answers compared by the independence monitor are canonicalised by the harness: time stamps '
                   'masked, error reports reduced to the class name.',
     'trusted': [
         'LibLaws: json.loads(json.dumps(x)) == x; json.dumps output is non-empty ASCII without newline that begins and ends with a '
@@ -41,7 +51,8 @@ META = {
         '(oracle tables); for the dispatcher model: descriptive data and the checks of activate / logging are tables computed on fresh nodes, '
         'what a module did with read/change/do is what the real module did in that call, Python truth values of request data come from Python',
         'the dispatcher raises only subclasses of Exception (KeyboardInterrupt/SystemExit are not answered)',
-        'what a failing sendall wrote before it raised is not modelled (the peer is gone)',
+        'a failing sendall has written a proper prefix of its frame (never the whole frame); exceptions of sendall are subclasses of Exception',
+        'str() / repr() of the arguments of an error raised by driver code do not raise',
     ],
     'modelled_not_verified': [
         'socketserver.ThreadingTCPServer / socket.recv / sendall (scripted fake socket)',
@@ -51,8 +62,11 @@ META = {
         'abstract bookkeeping that never influences a reply; the events a request causes are not compared with the dispatcher model (abstract function)',
     ],
     'assumptions': [
-        'DispFits (hypothesis of reply_action_fits / lines_whole): positive replies of the dispatcher are well-formed triples that belong '
-        'to the request; its FitsOk half is proved for the dispatcher model, well-formedness of specifiers is checked on the real Dispatcher by the monitors',
+        'DispAnswers (hypothesis of reply_action_fits / error_class_is_secop: positive replies carry the reply action and specifier of the request, raised '
+        'SECoP errors a class name of errors.py) and DispNoEol (hypothesis of the whole-line and peer-gone theorems) replace the former DispFits; both are '
+        'proved for the dispatcher model (dispatch_answers, dispatcher_no_newline), so that dispatcher_reply_action_fits and dispatcher_lines_whole assume only, '
+        'of the node, NodeClasses (its errors carry class names of errors.py) and NodeEventsNoEol (module / parameter names in events contain no newline); '
+        'both are checked on the real node by the monitors (error class of every error reply, every sendall one line)',
         'DispNeutral (hypothesis of neutral_lines_removable): proved for the dispatcher model over any NodeIf, i.e. assuming that descriptive data and the '
         'checks of activate / logging are functions of the request alone and that no reply depends on subscriptions; checked on the real node by the '
         'correspondence run (fresh-node tables) and by the independence monitor',
@@ -75,8 +89,14 @@ GONE = {'pipe': BrokenPipeError, 'reset': ConnectionResetError, 'os': OSError, '
 class FakeSock:
     def __init__(self, chunks, gone=None):
         self.chunks = list(chunks)
-        self.out = []
-        self.gone = gone       # {'after': n, 'exc': kind}: the peer goes away, only the first n calls of sendall succeed
+        self.out = []          # the byte strings of the sendall calls that completed
+        self.wire = []         # every piece that went out, in order: what the peer receives
+        self.ncalls = 0
+        self.failed = []       # (number of the call, frame handed to it) of the calls that raised
+        # {'after': n, 'exc': kind, 'written': k, 'back': bool}: the first n calls of sendall succeed; call n writes
+        # min(k, len(frame) - 1) bytes of its frame and raises; later calls raise as well (the peer is gone for good),
+        # or, with 'back', succeed (the peer was slow / the buffer was full, and takes data again)
+        self.gone = gone
 
     def settimeout(self, t):
         pass
@@ -94,9 +114,19 @@ class FakeSock:
         return size
 
     def sendall(self, b):
-        if self.gone is not None and len(self.out) >= self.gone['after']:
-            raise GONE[self.gone['exc']]('the peer is gone')
-        self.out.append(bytes(b))
+        b = bytes(b)
+        n = self.ncalls
+        self.ncalls += 1
+        g = self.gone
+        if g is not None and n >= g['after'] and (n == g['after'] or not g.get('back')):
+            self.failed.append((n, b))
+            if n == g['after']:
+                part = b[:max(0, min(g.get('written', 0), len(b) - 1))]
+                if part:
+                    self.wire.append(part)
+            raise GONE[g['exc']]('the peer is gone')
+        self.out.append(b)
+        self.wire.append(b)
 
     def shutdown(self, how):
         pass
@@ -163,6 +193,70 @@ def secop_by_name():
     return SECOP_BY_NAME
 
 
+# ----------------------------------------------------------------------------------------
+# errors as driver code raises them: any SECoPError class, with any arguments (none, several, objects that are not
+# strings: the exception that was caught, an error code ...), having passed any number of read / write wrappers
+# ----------------------------------------------------------------------------------------
+ERR_CLASSES = ['HardwareError', 'CommunicationFailedError', 'SilentCommunicationFailedError', 'ProgrammingError', 'ConfigError',
+               'NotImplementedSECoPError', 'RangeError', 'BadValueError', 'InternalError', 'SECoPError', 'TimeoutSECoPError',
+               'ReadFailedError', 'WrongTypeError', 'IsErrorError', 'CommandFailedError', 'ImpossibleError']
+ERR_ARGS = {
+    'str': lambda: ('device says no',),
+    'none': lambda: (),
+    'empty': lambda: ('',),
+    'int': lambda: (42,),
+    'float': lambda: (2.5,),
+    'None': lambda: (None,),
+    'bool': lambda: (False,),
+    'exc': lambda: (OSError(5, 'Input/output error'),),
+    'exc0': lambda: (ValueError(),),
+    'keyerr': lambda: (KeyError('k'),),
+    'secop': lambda: (__import__('frappy.errors').errors.HardwareError('inner', 3),),
+    'bytes': lambda: (b'x\xff\n',),
+    'two': lambda: ('a', 'b'),
+    'fmt': lambda: ('bad reply %r', b'\x00?'),
+    'mixed': lambda: ('text', 3, None, 1.5),
+    'tuple': lambda: (('a', 1),),
+    'dict': lambda: ({'code': 7},),
+    'list': lambda: ([1, 'x'],),
+    'unicode': lambda: ('gr\u00fc\u00df \u2028 \U0001f600',),
+    'newline': lambda: ('line1\nline2',),
+    'surrogate': lambda: ('\ud800',),
+    'type': lambda: (KeyError,),
+    'kw': lambda: ('msg',),
+}
+ERR_METHODS = [[], [], ['m.write_target'], ['m.read_value'], ['m.read_value', 'n.read_x'], ['a.read_b', 'c.write_d', 'e.read_f']]
+PLAIN_EXC = {'exc': lambda: KeyError('k'), 'excz': ZeroDivisionError, 'excu': lambda: UnicodeDecodeError('utf-8', b'\xff', 0, 1, 'x'),
+             'excr': RecursionError, 'exca': lambda: AssertionError('a\nb'), 'excs': StopIteration,
+             'exco': lambda: OSError(5, 'Input/output error'), 'excn': Exception, 'excm': lambda: Exception('a', 3, None),
+             'excb': lambda: ValueError(b'\xff', ValueError())}
+
+
+def build_error(spec):
+    """`Class:args:methods` -> the error object, as driver code would have raised it and the wrappers marked it"""
+    import frappy.errors as fe
+    cname, shape, nm = (spec.split(':') + ['0'])[:3]
+    cls = getattr(fe, cname, fe.HardwareError)
+    e = cls(*ERR_ARGS[shape](), **({'reply': b'\x15'} if shape == 'kw' else {}))
+    e.raising_methods.extend(ERR_METHODS[int(nm) % len(ERR_METHODS)])
+    return e
+
+
+def err_info(e):
+    """what SECoPError.format looks at, for the model of the error text; str() / repr() of the argument objects
+    are Python's (parameters of the model)"""
+    try:
+        return {'registered': type(e).name2class.get(e.name) == type(e), 'tname': hx(enc(type(e).__name__)),
+                'methods': [hx(enc(m)) for m in (e.raising_methods or [])],
+                'args': [{'s': hx(enc(str(a))), 'r': hx(enc(repr(a)))} for a in e.args]}
+    except Exception:
+        return None
+
+
+def gen_err_kind(rng):
+    return 'err:%s:%s:%d' % (rng.choice(ERR_CLASSES), rng.choice(sorted(ERR_ARGS)), rng.randrange(len(ERR_METHODS)))
+
+
 class StubDispatcher:
     """does, per call, what the plan says (cyclic); records what it was asked and what it did"""
 
@@ -207,13 +301,16 @@ class StubDispatcher:
             rec.update(r='ok', **triple_rec(reply))
             return reply
         if kind.startswith('secop:'):
-            cls = secop_by_name()[kind[6:]]
-            rec.update(r='secop', cls=hx(cls.name.encode()))
-            raise cls('scripted %s' % kind)
+            e = secop_by_name()[kind[6:]]('scripted %s' % kind)
+            rec.update(r='secop', cls=hx(e.name.encode()), err=err_info(e))
+            raise e
+        if kind.startswith('err:'):
+            e = build_error(kind[4:])
+            rec.update(r='secop', cls=hx(str(e.name).encode()), err=err_info(e))
+            raise e
         if kind.startswith('exc'):
             rec.update(r='exc')
-            raise {'exc': KeyError('k'), 'excz': ZeroDivisionError(), 'excu': UnicodeDecodeError('utf-8', b'\xff', 0, 1, 'x'),
-                   'excr': RecursionError(), 'exca': AssertionError('a\nb'), 'excs': StopIteration()}[kind]
+            raise PLAIN_EXC[kind]()
         rec.update(r='garbage')
         return {'none': None, 'empty': (), 'int': 5, 'unser': ('reply', spec, {1, 2}),
                 'errshape': ('error_x', None, None), 'nonstr': (5, None, None), 'list0': [], 'str0': '',
@@ -222,6 +319,7 @@ class StubDispatcher:
 
 STUB_KINDS = ['ok', 'ok', 'okd', 'okd', 'oka', 'oke', 'secop:NoSuchModule', 'secop:ProtocolError', 'secop:RangeError',
               'secop:InternalError', 'secop:TimeoutError', 'secop:NotImplemented', 'exc', 'excz', 'excu', 'excr', 'exca', 'excs',
+              'exco', 'excn', 'excm', 'excb',
               'none', 'empty', 'int', 'unser', 'errshape', 'nonstr', 'list0', 'str0', 'obj']
 
 
@@ -254,7 +352,7 @@ class RecordingDispatcher:
         try:
             reply = self.real.handle_request(conn, msg)
         except SECoPError as e:
-            rec.update(r='secop', cls=hx(str(e.name).encode()))
+            rec.update(r='secop', cls=hx(str(e.name).encode()), err=err_info(e))
             raise
         except Exception:
             rec.update(r='exc')
@@ -281,7 +379,19 @@ class ServerStub:
 _node_counter = [0]
 
 
-def make_real_node(nan):
+FAULT_PLACES = ['read_value', 'write_target', 'write_s', 'twice', 'stop']
+
+
+def gen_faults(rng):
+    """which driver functions of module m / n fail, and how"""
+    res = {}
+    for _ in range(rng.choice([1, 1, 2, 3])):
+        spec = gen_err_kind(rng)[4:] if rng.random() < 0.8 else rng.choice(sorted(PLAIN_EXC))
+        res[rng.choice('mmn') + '.' + rng.choice(FAULT_PLACES)] = spec
+    return res
+
+
+def make_real_node(nan, faults=None):
     """a small real node: SecNode + Dispatcher + two modules, without Server"""
     import mlzlog
     import frappy.secnode
@@ -297,22 +407,36 @@ def make_real_node(nan):
         target = Parameter('t', FloatRange(), default=0)
         s = Parameter('s', StringType(), default='', readonly=False)
         raw = 0.5
+        faults = {}      # driver function -> the error it raises (`Class:args:methods` or the name of a plain exception)
+
+        def fault(self, where):
+            spec = self.faults.get(where)
+            if spec:
+                raise PLAIN_EXC[spec]() if spec in PLAIN_EXC else build_error(spec)
 
         def read_value(self):
+            self.fault('read_value')
             return self.raw
 
         def write_target(self, v):
+            self.fault('write_target')
             self.raw = v
+            return v
+
+        def write_s(self, v):
+            self.fault('write_s')
             return v
 
         @Command(FloatRange(), result=FloatRange())
         def twice(self, x):
             """twice"""
+            self.fault('twice')
             return 2 * x
 
         @Command()
         def stop(self):
             """stop"""
+            self.fault('stop')
 
     class Srv:
         restart = shutdown = None
@@ -340,6 +464,9 @@ def make_real_node(nan):
         srv.secnode.get_module(name)
     if nan:
         srv.secnode.modules['m'].raw = float('nan')
+    for key, spec in (faults or {}).items():
+        mod = srv.secnode.modules[key.split('.')[0]]
+        mod.faults = dict(mod.faults, **{key.split('.')[1]: spec})
     return srv
 
 
@@ -350,7 +477,7 @@ def _reject(name):
 def line_flags(frame, check_strict=True):
     """the two implementation-side tests of the statement, per emitted line; strictness of the data part is tested
     only when a real frappy layer (the real Dispatcher and datatypes) produced the data: what a stub dispatcher hands
-    over is the harness's own input"""
+    over is the harness's own input -- there the data part must still be a JSON text for Python's lenient parser"""
     try:
         text = frame.decode('utf-8')
         utf8 = True
@@ -358,9 +485,12 @@ def line_flags(frame, check_strict=True):
         return [False, True]
     data = (text.rstrip('\n').split(' ', 2) + ['', ''])[2]
     strict = True
-    if data != '' and check_strict:
+    if data != '':
         try:
-            json.loads(data, parse_constant=_reject)
+            if check_strict:
+                json.loads(data, parse_constant=_reject)
+            else:
+                json.loads(data)     # a JSON text at least (a line spliced from two frames has none)
         except Exception:
             strict = False
     return [utf8, strict]
@@ -399,7 +529,7 @@ def make_dispatcher(disp):
     """the dispatcher of a case: a stub, or the real Dispatcher of a fresh small node (returned unwrapped)"""
     if disp['kind'] == 'stub':
         return StubDispatcher(disp['plan'], disp.get('by_request', False))
-    node = make_real_node(disp.get('nan', False))
+    node = make_real_node(disp.get('nan', False), disp.get('faults'))
     if disp.get('ts'):
         # a time stamp handed in from outside (proxy / sea modules relay the remote node's), here not finite
         node.secnode.modules['m'].announceUpdate('value', 2.0, None, float(disp['ts']))
@@ -423,7 +553,8 @@ def run_impl(case, shared=None):
         TCPRequestHandler(sock, ('127.0.0.1', 4711), srv)
     died = [e for e in srv.log.errors if e and isinstance(e[0], str) and e[0].startswith('Traceback')]
     return {'outs': sock.out, 'calls': d.calls, 'script': d.script, 'died': bool(died),
-            'died_text': died[0][0][-400:] if died else None}
+            'died_text': died[0][0][-400:] if died else None, 'received': b''.join(sock.wire),
+            'torn': sock.failed[0][1] if sock.failed else None, 'send_calls': sock.ncalls}
 
 
 # ----------------------------------------------------------------------------------------
@@ -437,12 +568,15 @@ B_SUBSCRIBED = [b'n']
 class SchedSock(FakeSock):
     """scripted socket whose recv and every partial write of sendall are yield points of the scheduler"""
 
-    def __init__(self, sched, name, chunks, piece):
+    def __init__(self, sched, name, chunks, piece, gone=None):
         super().__init__(chunks)
         self.sched = sched
         self.name = name
         self.piece = piece
         self.calls = []          # the byte strings handed to sendall
+        # {'after': n, 'pieces': j, 'exc': kind, 'back': bool}: call n of sendall raises after j of its pieces went out
+        # (never all of them); later calls raise at once, or (`back`) succeed
+        self.fails = gone
 
     def recv(self, n):
         self.sched.yield_(('recv', self.name))
@@ -455,10 +589,19 @@ class SchedSock(FakeSock):
 
     def sendall(self, b):
         b = bytes(b)
+        n = len(self.calls)
         self.calls.append(b)
-        for i in range(0, len(b), self.piece):    # sendall hands the frame to the socket in pieces
+        pieces = [b[i:i + self.piece] for i in range(0, len(b), self.piece)]    # sendall hands the frame to the socket in pieces
+        g = self.fails
+        if g is not None and n >= g['after'] and (n == g['after'] or not g.get('back')):
+            for p in (pieces[:min(g['pieces'], len(pieces) - 1)] if n == g['after'] else []):
+                self.sched.yield_(('write', self.name))
+                self.out.append(p)
+            self.sched.yield_(('write-fails', self.name))
+            raise GONE[g['exc']]('send failed')
+        for p in pieces:
             self.sched.yield_(('write', self.name))
-            self.out.append(b[i:i + self.piece])
+            self.out.append(p)
 
 
 def run_concurrent(case):
@@ -486,7 +629,7 @@ def run_concurrent(case):
         for name, chunks in (('A', [bytes.fromhex(c) for c in case['chunks']]),
                              ('B', [b''.join(ln + b'\n' for ln in B_SCRIPT)][:1] if case.get('b_one_chunk', True)
                               else [ln + b'\n' for ln in B_SCRIPT])):
-            sock = SchedSock(s, name, chunks, case.get('piece', 5))
+            sock = SchedSock(s, name, chunks, case.get('piece', 5), case.get('a_gone') if name == 'A' else None)
             d = RecordingDispatcher(node.dispatcher)
             d.sock = sock
             d.concurrent = True
@@ -534,6 +677,12 @@ def evaluate_concurrent_many(ctx, cases):
         streams = {'A': b''.join(bytes.fromhex(c) for c in case['chunks']), 'B': stream_b}
         for name in 'AB':
             outs = res[name]['lines']
+            if name == 'A' and case.get('a_gone'):
+                # a send on A fails in the middle of a frame: what A has received by then -- from all threads -- is judged
+                got = res['A']['received']
+                reqs.append({'p': 'C07', 'k': 'judge_received', 'stream': hx(streams['A']), 'received': hx(got),
+                             'flags': [line_flags(ln + b'\n', True) for ln in got.split(b'\n')[:-1]]})
+                continue
             reqs.append({'p': 'C07', 'k': 'judge', 'stream': hx(streams[name]), 'outs': [hx(o) for o in outs],
                          'flags': [line_flags(o, True) for o in outs]})
         reqs.append({'p': 'C07', 'k': 'judge_events', 'outs': [hx(o) for o in res['B']['lines']],
@@ -593,7 +742,9 @@ def gen_concurrent(rng):
     stream = b''.join(ln + b'\n' for ln in lines)
     return {'kind': 'concurrent', 'chunks': [hx(c) for c in segment(rng, stream) if c], 'sched_seed': rng.randrange(1 << 30),
             'preempt': rng.choice([0.2, 0.5, 0.8]), 'piece': rng.choice([1, 3, 5, 16, 4096]), 'updates': rng.choice([2, 6]),
-            'b_one_chunk': rng.random() < 0.5}
+            'b_one_chunk': rng.random() < 0.5,
+            **({'a_gone': {'after': rng.choice([0, 1, 2, 3, 5, 8]), 'pieces': rng.choice([0, 1, 1, 2, 3, 100]),
+                           'exc': rng.choice(sorted(GONE)), 'back': rng.random() < 0.7}} if rng.random() < 0.3 else {})}
 
 
 # ----------------------------------------------------------------------------------------
@@ -676,6 +827,8 @@ def gen_session(rng):
         streams.append(stream)
     if rng.random() < 0.75:
         disp = {'kind': 'real', 'nan': rng.random() < 0.1}
+        if rng.random() < 0.15:
+            disp['faults'] = gen_faults(rng)
     else:
         disp = {'kind': 'stub', 'plan': gen_plan(rng), 'by_request': True}
     return streams, disp
@@ -936,31 +1089,85 @@ def evaluate(ctx, cases, impls=None):
     distinct = list(dict.fromkeys(streams))
     tables = dict(zip(distinct, oracle_tables(ctx, distinct)))
     reqs = []
+    slots = []       # per case: where its answers are in the batch
     for c, im, s in zip(cases, impls, streams):
         utf8, js = tables[s]
         gone = c.get('gone')
+        real = c['disp']['kind'] == 'real'
+        slot = {'model': len(reqs)}
         reqs.append({'p': 'C07', 'k': 'serve', 'chunks': c['chunks'], 'utf8': utf8, 'json': js, 'script': im['script'],
                      'fail_after': gone['after'] if gone else None})
+        slot['judge'] = len(reqs)
         if gone:
             reqs.append({'p': 'C07', 'k': 'judge_gone', 'stream': hx(s), 'outs': [hx(o) for o in im['outs']]})
+            # what the peer has received, byte for byte (with the part of the frame whose send failed), cut at newlines
+            slot['received'] = len(reqs)
+            got = im['received']
+            reqs.append({'p': 'C07', 'k': 'judge_received', 'stream': hx(s), 'received': hx(got),
+                         'flags': [line_flags(ln + b'\n', real) for ln in got.split(b'\n')[:-1]]})
         else:
             reqs.append({'p': 'C07', 'k': 'judge', 'stream': hx(s), 'outs': [hx(o) for o in im['outs']],
-                         'flags': [line_flags(o, c['disp']['kind'] == 'real') for o in im['outs']]})
-    real = [i for i, c in enumerate(cases) if c['disp']['kind'] == 'real']
-    for i in real:
-        reqs.append(dispatch_request(impls[i]))
+                         'flags': [line_flags(o, real) for o in im['outs']]})
+        errs = [rec['err'] for rec in im['script'] if rec.get('err')]
+        if errs:
+            slot['errtext'] = len(reqs)
+            reqs.append({'p': 'C07', 'k': 'errtext', 'errors': errs})
+        if real:
+            slot['dmodel'] = len(reqs)
+            reqs.append(dispatch_request(im))
+        slots.append(slot)
     ans = ctx.driver.batch(reqs)
     out = []
-    for i, (c, im, s) in enumerate(zip(cases, impls, streams)):
-        model, judge = ans[2 * i], ans[2 * i + 1]
-        if 'driver_error' in model or 'driver_error' in judge:
-            raise RuntimeError(f'driver error: {model} {judge} on {c}')
-        out.append({'case': c, 'impl': im, 'model': model, 'judge': judge, 'stream': s})
-    for i, a in zip(real, ans[2 * len(cases):]):
-        if 'driver_error' in a:
-            raise RuntimeError(f'driver error: {a} on {cases[i]}')
-        out[i]['dmodel'] = a
+    for c, im, s, slot in zip(cases, impls, streams, slots):
+        for a in slot.values():
+            if 'driver_error' in ans[a]:
+                raise RuntimeError(f'driver error: {ans[a]} on {c}')
+        model, judge = ans[slot['model']], ans[slot['judge']]
+        if 'received' in slot and judge['bad'] is None:
+            judge = dict(ans[slot['received']], on='received')
+        ev = {'case': c, 'impl': im, 'model': model, 'judge': judge, 'stream': s}
+        if 'errtext' in slot:
+            ev['errtext'] = ans[slot['errtext']]['texts']
+        if 'dmodel' in slot:
+            ev['dmodel'] = ans[slot['dmodel']]
+        out.append(ev)
     return out
+
+
+def reply_texts(im, model):
+    """per dispatcher call the text of the error report in the reply to it (None: no such reply / no text): the
+    replies are the emitted lines which the model calls replies, one per request line, in order; the model says which
+    request lines reach the dispatcher"""
+    replies = [o for o, mo in zip(im['outs'], model['outs']) if mo['k'] == 'reply']
+    res = []
+    for ln, call in enumerate(model.get('callidx', [])):
+        if call is None:
+            continue
+        text = None
+        if ln < len(replies):
+            body = replies[ln][:-1].split(b' ', 2)
+            try:
+                data = json.loads(body[2]) if len(body) == 3 else None
+                if isinstance(data, list) and len(data) == 3 and isinstance(data[1], str):
+                    text = data[1]
+            except Exception:
+                pass
+        res.append(text)
+    return res
+
+
+def compare_errtext(ev):
+    """the text of the error report (`str(err)` evaluated by the request loop) vs the model of SECoPError.format"""
+    im, model = ev['impl'], ev['model']
+    texts = reply_texts(im, model)
+    expected = iter(ev['errtext'])
+    for k, rec in enumerate(im['script']):
+        if not rec.get('err'):
+            continue
+        want = bytes.fromhex(next(expected))
+        if k < len(texts) and texts[k] is not None and enc(texts[k]) != want:
+            return {'what': 'text of the error report', 'index': k, 'model': want[:120], 'impl': enc(texts[k])[:120]}
+    return None
 
 
 def compare(ev):
@@ -980,6 +1187,19 @@ def compare(ev):
             return {'what': 'request seen by the dispatcher', 'index': k, 'model': mc, 'impl': repr(ic)[:200]}
     if not model['same_as_unsegmented']:
         return {'what': 'model output depends on the segmentation', 'model': None, 'impl': None}
+    if ev['case'].get('gone'):
+        # the frame handed to the sendall call that raised, and no call of sendall after it
+        mt = None if model['torn'] is None else {k: model['torn'][k] for k in 'ascd'}
+        it = None if im['torn'] is None else obs_frame(im['torn'])
+        if mt != it:
+            return {'what': 'frame whose send failed', 'model': mt, 'impl': it}
+        want = len(model['outs']) + (1 if mt is not None else 0)
+        if im['send_calls'] != want:
+            return {'what': 'number of sendall calls', 'model': want, 'impl': im['send_calls']}
+    if 'errtext' in ev:
+        dis = compare_errtext(ev)
+        if dis is not None:
+            return dis
     if 'dmodel' in ev:
         return compare_dispatch(ev)
     return None
@@ -1148,7 +1368,14 @@ def gen_plan(rng):
     n = rng.choice([1, 2, 3, 5])
     if rng.random() < 0.35:
         return [rng.choice(['ok', 'okd', 'oka', 'oke']) for _ in range(n)]
-    return [rng.choice(STUB_KINDS) for _ in range(n)]
+    return [rng.choice(STUB_KINDS) if rng.random() < 0.7 else gen_err_kind(rng) for _ in range(n)]
+
+
+def gen_gone(rng):
+    """a send that fails: the first `after` calls of sendall succeed, the next one writes `written` bytes of its frame
+    (never all of it) and raises; after that the peer is gone for good, or (`back`) takes data again"""
+    return {'after': rng.choice([0, 1, 1, 2, 3, 5, 11, 12, 13, 14, 20]), 'exc': rng.choice(sorted(GONE)),
+            'written': rng.choice([0, 0, 1, 3, 5, 6, 8, 12, 20, 10 ** 6]), 'back': rng.random() < 0.6}
 
 
 def case_of(chunks, disp):
@@ -1182,7 +1409,7 @@ def request_class(line):
 
 def signature(ev):
     if ev['case'].get('gone'):
-        return 'C07:peer_gone:' + ev['judge']['bad']['clause']
+        return 'C07:peer_gone:' + ev['judge']['bad']['clause'] + (':received' if ev['judge'].get('on') else '')
     bad = ev['judge']['bad']
     clause = bad['clause']
     lines = ev['stream'].split(b'\n')[:-1]
@@ -1245,7 +1472,11 @@ def describe(ev):
         outs = outs[:4] + [f'... {len(outs) - 7} more ...'] + outs[-3:]
     txt = f'{bad}: chunks={[bytes.fromhex(c)[:80] for c in ev["case"]["chunks"]][:6]} dispatcher={ev["case"]["disp"]} sent={outs}'
     if ev['case'].get('gone'):
-        txt += f" (sendall fails from call {ev['case']['gone']['after']} on: {ev['case']['gone']['exc']})"
+        g = ev['case']['gone']
+        txt += (f" (sendall call {g['after']} raises {GONE[g['exc']].__name__} after {g.get('written', 0)} bytes of its frame"
+                f"{', later calls succeed' if g.get('back') else ', all later calls raise'}); the peer has received "
+                f"{[ln[:80] for ln in ev['impl']['received'].split(bytes([10]))][max(0, g['after'] - 1):g['after'] + 3]}"
+                f" (lines {max(0, g['after'] - 1)}..)")
     if ev['impl']['died']:
         txt += ' HANDLER DIED: ' + ev['impl']['died_text'].strip().splitlines()[-1]
     return txt
@@ -1258,11 +1489,13 @@ def run(ctx):
                 'handler-colliding actions), 45 % of the lines mutated at byte level (invalid UTF-8, broken JSON, missing/extra fields, '
                 'white space incl. Unicode, CR/LF variants, blank lines, 1-64 KiB lines), delivered to the real TCPRequestHandler in '
                 'random segmentations (all 2^(n-1) segmentations of the short streams), with a stub dispatcher doing per call one of '
-                '27 things (fitting reply, reply after events, 6 SECoP errors, 6 other exceptions, 9 kinds of unusable return value) '
-                'or the real Dispatcher over a two-module node; plus concurrent cases (connection A with such a stream, connection B with a fixed '
+                '31 things (fitting reply, reply after events, 6 SECoP errors, 10 other exceptions, 9 kinds of unusable return value) or, 30 % of '
+                'the calls, raising a SECoP error of one of 16 classes with one of 23 shapes of arguments (none, several, not strings) and 0-3 raising methods, '
+                'or the real Dispatcher over a two-module node, 30 % of them with driver functions (read / write / commands) that raise such errors; plus concurrent cases (connection A with such a stream, connection B with a fixed '
                 'script, a third thread announcing updates, all on one real dispatcher under the deterministic scheduler with partial '
                 'writes; when nothing A sends is carried out by a module, B is compared with B alone on a fresh node); 10 % of the streams with a '
-                'socket whose sendall fails from call n on (5 kinds of exception); sessions (1-3 connections one after the other on one node, 55 % of the '
+                'socket whose sendall call n raises (5 kinds of exception) after 0 .. all-but-one bytes of its frame went out, later calls raising too or '
+                '(60 %) succeeding -- the same for connection A in 30 % of the concurrent cases; sessions (1-3 connections one after the other on one node, 55 % of the '
                 'lines requests that no module carries out with any specifier) run twice, the second time on a fresh node without some of the '
                 'neutral lines (one / all / all of one connection / random half); non-trivial = at least 2 request lines in at least 2 chunks with at '
                 'least one positive and one error reply; for sessions: at least 2 connections, lines left out and lines kept')
@@ -1296,6 +1529,8 @@ def run(ctx):
         disp = {'kind': 'real', 'nan': rng.random() < 0.1} if real else {'kind': 'stub', 'plan': gen_plan(rng)}
         if real and rng.random() < 0.1:
             disp['ts'] = rng.choice(['nan', 'inf', '-inf'])
+        if real and rng.random() < 0.3:
+            disp['faults'] = gen_faults(rng)      # driver code that fails, with errors carrying any arguments
         if len(stream) < 300 and rng.random() < 0.02:
             disp['detailed'] = True      # detailed_errors=True: error reports keep exception text and stack dump
             if 'plan' in disp:           # an `error_x` triple without report is sent as it is when reports are not cleared
@@ -1303,7 +1538,7 @@ def run(ctx):
         for _ in range(2 if len(stream) < 3000 else 1):
             cases.append(case_of(segment(rng, stream), disp))
             if rng.random() < 0.1:      # the peer goes away: sendall fails from some call on
-                cases[-1]['gone'] = {'after': rng.choice([0, 1, 1, 2, 3, 5, 11, 12, 13, 14, 20]), 'exc': rng.choice(sorted(GONE))}
+                cases[-1]['gone'] = gen_gone(rng)
 
     shrunk = 0
     seen_sigs = set()
@@ -1323,6 +1558,10 @@ def run(ctx):
             res.count('dispatcher.' + case['disp']['kind'])
             if case.get('gone'):
                 res.count('peer-gone.' + case['gone']['exc'])
+                res.count('peer-gone.later-calls-' + ('succeed' if case['gone'].get('back') else 'raise'))
+                if im['torn'] is not None:
+                    npart = len(im['received']) - sum(len(o) for o in im['outs'])
+                    res.count('peer-gone.part-of-frame-written=%s' % ('0' if npart == 0 else '1-5' if npart < 6 else '6+'))
                 res.count('peer-gone.lines-processed=%s' % (ev['model'].get('done') if ev['model'].get('done', 9) < 4 else '4+'))
                 res.count('peer-gone.loop-stopped' if len(im['outs']) == case['gone']['after'] and
                           ev['model'].get('done', 0) < nlines else 'peer-gone.all-lines-processed')
@@ -1338,6 +1577,13 @@ def run(ctx):
                     res.count('error.' + bytes.fromhex(o['c']).decode('latin-1'))
             for rec in im['script']:
                 res.count('dispatcher-did.' + rec.get('r', '?'))
+                if rec.get('err'):
+                    na = len(rec['err']['args'])
+                    res.count('secop-error.args=%s' % (na if na < 2 else '2+'))
+                    res.count('secop-error.' + ('registered-class' if rec['err']['registered'] else 'class-name-in-text'))
+                    res.count('secop-error.raising-methods=%d' % len(rec['err']['methods']))
+            if case['disp'].get('faults'):
+                res.count('real-node.with-failing-driver-functions')
             if len(ev['stream']) > 60000:
                 res.count('stream>60000 bytes')
             if nlines >= 2 and len(case['chunks']) >= 2 and npos and nerr:
@@ -1424,6 +1670,10 @@ def run(ctx):
         res.traces += 2
         res.count('concurrent.cases')
         res.count('concurrent.piece=%s' % case.get('piece'))
+        if case.get('a_gone'):
+            res.count('concurrent.a-send-on-A-fails')
+            if len(ev['res']['A']['frames_sent']) > case['a_gone']['after']:
+                res.count('concurrent.a-send-on-A-fails.reached')
         r = ev['res']
         nupd_a = sum(1 for ln in r['A']['lines'] if ln.startswith(b'update '))
         res.count('concurrent.A-got-events' if nupd_a else 'concurrent.A-no-events')
@@ -1475,6 +1725,8 @@ def replay(ctx, rp):
     print('chunks :', [bytes.fromhex(c)[:200] for c in case['chunks']])
     print('disp   :', case['disp'], 'peer gone:', case.get('gone'))
     print('impl   :', [o[:200] for o in ev['impl']['outs']])
+    if case.get('gone'):
+        print('peer received:', [ln[:200] for ln in ev['impl']['received'].split(bytes([10]))])
     print('did    :', [r.get('r') for r in ev['impl']['script']])
     if ev['impl']['died']:
         print('HANDLER DIED:', ev['impl']['died_text'])
